@@ -145,3 +145,34 @@ Definition simple_case (spaces : list N) (decimals : list (N * N)) (azci : list 
   | Raise _, None => true
   | _, _ => false
   end.
+
+(* ---- OLE summary readers and XLSX properties on recorded oracle records.
+   (kind 0 = DOC, 1 = PPT, 2 = XLS; record; recorded decodes ((code page, bytes) -> str); recorded strict UTF-8
+   decodes; None = raised | Some (title, author, subject, keywords, description)) *)
+From S2T Require Import C04.ModelSummary.
+
+Fixpoint dec_lookup (tbl : list (Z * list N * str)) (cp : Z) (b : list N) : str :=
+  match tbl with
+  | [] => s "<unrecorded>"
+  | (cp', b', x) :: r => if Z.eqb cp cp' && str_eqb b b' then x else dec_lookup r cp b
+  end.
+Fixpoint strict_lookup (tbl : list (list N * option str)) (b : list N) : option str :=
+  match tbl with
+  | [] => None
+  | (b', x) :: r => if str_eqb b b' then x else strict_lookup r b
+  end.
+
+Definition summary_case (cp_aware : bool)
+    (c : N * ole_meta * list (Z * list N * str) * list (list N * option str) * option (str * str * str * str * str)) : bool :=
+  let '(kind, m, dt, st, want) := c in
+  let dec := dec_lookup dt in
+  let r := if N.eqb kind 0 then Ok (doc_props dec cp_aware m)
+           else if N.eqb kind 1 then Ok (ppt_props dec cp_aware m)
+           else xls_props dec (strict_lookup st) cp_aware m in
+  match r, want with
+  | Ok p, Some w => props_eqb p w
+  | Raise _, None => true
+  | _, _ => false
+  end.
+
+Definition xlsx_case (c : xlsx_properties * (str * str * str * str * str)) : bool := props_eqb (xlsx_props (fst c)) (snd c).
